@@ -32,6 +32,7 @@ macro_rules! with_check {
             "C12" => $f::<props::c12::C12>($($arg),*),
             "C13" => $f::<props::c13::C13>($($arg),*),
             "C14" => $f::<props::c14::C14>($($arg),*),
+            "C20" => $f::<props::c20::C20>($($arg),*),
             other => {
                 eprintln!("unknown check {other}");
                 std::process::exit(2);
@@ -333,6 +334,7 @@ fn main() {
             let out = PathBuf::from(&args[7]);
             with_check!(args[2].as_str(), worker, tier, seed, shard, nshards, &out)
         }
+        Some("opener") => props::c20::opener_main(&args[2..]),
         Some("shrink") => {
             let f = PathBuf::from(&args[3]);
             with_check!(args[2].as_str(), shrink, &f)
